@@ -24,8 +24,19 @@ from ..ref import c18_defs as R
 
 LEVEL = "exploration"
 
-HEADER = """from cohdl import std, Bit, BitVector, Unsigned, Signed, Port, Null, Full, Entity
+HEADER = """from __future__ import annotations
+from cohdl import std, Bit, BitVector, Unsigned, Signed, Port, Null, Full, Entity
 import cohdl
+
+TArg = std.TemplateArg.Type
+
+
+class Wrapped(std.Record[TArg]):
+    # compound operand with its own order (as in the upstream clamp test)
+    val: TArg
+
+    def __lt__(self, other: Wrapped):
+        return self.val < other.val
 """
 
 
